@@ -229,9 +229,9 @@ fn run_two_mocks(case: &Case, rng: &mut Rng) -> Option<(Vec<Obs>, Option<Obs>, u
             ..
         } = op
         {
-            ctx().inject = *inject;
+            arm_inject(*inject);
             let r = guarded(|| call_method(&m1, *method, args));
-            ctx().inject = None;
+            arm_inject(None);
             obs.push(match r {
                 Ok(v) => Obs::Value(v),
                 Err(o) => o,
